@@ -16,6 +16,19 @@
               conformance, reject = DRIFT) and judged by Trace_Shared!Verdict on the recorded data:
               replies, prompts, call-time temperatures equal the alone run, temperature is the
               configured one whenever no request is in flight.  VIOLATION lines come only from that.
+
+Violation kinds: param-at-call, param-at-rest, prompts-differ, reply-differs.  case["sig"]["class"]:
+  llmparams-overlap   (S8) a step of an LLMParams section of one request falls inside an open,
+                      value-changing section of another request, every section was entered with the
+                      kwargs of the alone run, and the trace is a behaviour of SharedInstance
+  cache-key-collision (S9) the request was continued from events of a different message list with an
+                      equal get_history_cache_key, and the trace is a behaviour of SharedInstance
+  other               anything else (never expected on the unchanged tree)
+Executions run on one reused LLMRails per worker that is reset (new cache dict, configured
+temperature) between executions; a sample of every violation class and every unclassified violation
+is re-run on a brand-new instance and must give the identical trace.
+VERIFY_PREFIX selects the variant of the implementation-shaped spec the code is compared with (drift
+only; the judge does not depend on it).
 """
 import asyncio
 import contextvars
@@ -37,7 +50,7 @@ CONFIGURED = 0.7
 NC = 3  # conversation slots of Trace_Shared (traces are padded)
 # The implementation-shaped spec follows the code: FALSE = a history-cache entry is used whenever its
 # key matches (the tree as it is); TRUE = only for the exact message prefix it was stored for.
-VERIFY_PREFIX = False
+VERIFY_PREFIX = True
 
 COLANG = '''
 define user express greeting
@@ -460,7 +473,7 @@ def conc_grid(quick):
 
     lats = (1, 3) if quick else (1, 2, 3)
     offs = (0, 1, 2, 4, 40) if quick else (0, 1, 2, 3, 5, 40)
-    phases = (0, 1, 9, 10, 19) if quick else (0, 1, 5, 9, 10, 15, 19, 20)
+    phases = (0, 1, 9, 10, 19) if quick else (0, 1, 9, 10, 19, 20)
     kinds2 = [("b", "b"), ("b", ":")]
     temps2 = TEMP_PAIRS
     for ka, kb in kinds2:
@@ -668,6 +681,10 @@ def _run(ctx, pool):
                 ex = {"mode": "seq", "fam": "seq%d" % len(convs), "convs": convs, "order": p["order"]}
                 model_bad[len(seq_execs)] = sorted(tuple(x) for x in p["bad"])
                 seq_execs.append(ex)
+        # TLC prints in a worker-dependent order: fix the order (ids, samples, first replays) here
+        perm = sorted(range(len(seq_execs)), key=lambda k: json.dumps([seq_execs[k]["convs"], seq_execs[k]["order"]]))
+        model_bad = {j: model_bad[k] for j, k in enumerate(perm)}
+        seq_execs = [seq_execs[k] for k in perm]
         execs = grid + seq_execs
         for k, ex in enumerate(execs):
             ex["id"] = k
